@@ -146,4 +146,7 @@ CLAIMED["C03"] = {
   "note": "Trusted: the python semantics in lib/check_c03.py. Differential testing, not proof. It found the shared-parent defect ([@A | @B, \"s\", 3] accepted [1,3]), fixed in e76ac42.",
   "technique": "differential check of Validate against a denotational (set) semantics of type references/or/allOf/additionalProperties on generated type graphs (partial: no theorem)",
 }
-NOT_APPLICABLE = {}
+NOT_APPLICABLE = {
+ "C13": "checked (bin/check C13: equality of Check verdict, AST and validation verdicts across random compositions of the listed schema/document rewrites) but not yet claimed: no theorem about the "
+        "schema scanner's respelling invariance exists in this revision, so the proof technique does not yet decide it; document half is covered by C05/C06 theorems + C01",
+}
